@@ -280,6 +280,10 @@ def malformed(ctx, jwk, rng):
                 d = {k: v for k, v in jwk.items() if k not in crt or k in subset}
                 yield "partial-crt-" + "+".join(subset), d
         yield "oth-present", {**jwk, "oth": [{"r": "AQ", "d": "AQ", "t": "AQ"}]}
+        # CRT parameters without the private exponent: still a partial set of private parameters
+        pub = gen.public_jwk(jwk)
+        for subset in (crt, ["p", "q"], ["p"], ["dp", "dq", "qi"], ["qi"]):
+            yield "partial-crt-without-d-" + "+".join(subset), {**pub, **{k: jwk[k] for k in subset}}
     if kty == "EC":
         c = CURVES[jwk["crv"]]
         sz = EC_SIZES[jwk["crv"]]
